@@ -192,7 +192,6 @@ type c06StreamPlan struct {
 
 var c06DrainModes = []string{"read", "read", "writeto", "prefix_copy", "prefix_read", "segments_read"}
 
-
 func c06GenStreamPlan(t *rapid.T) *c06StreamPlan {
 	p := &c06StreamPlan{}
 	p.Kind = rapid.SampledFrom([]string{
